@@ -61,7 +61,7 @@ SrcBase(s, H) ==
 \* endp = number pulled when the end of the stream is learnt (finite streams only)
 Src(s, H) == LET b == SrcBase(s, H)
              IN [pre |-> b.pre, inf |-> b.inf, ety |-> b.ety, prov |-> [i \in 1..Len(b.pre) |-> i],
-                 endp |-> IF b.inf THEN -1 ELSE Len(b.pre)]
+                 endp |-> IF b.inf THEN -1 ELSE Len(b.pre), reiter |-> FALSE]
 
 \* ---- adaptors ------------------------------------------------------------------------------
 RECURSIVE TakeWhileN(_, _, _), SkipUntilN(_, _, _), Sums(_, _, _), Groups(_, _), Distinct(_, _), Cycle(_, _)
@@ -166,7 +166,11 @@ ApplyProv(ad, s, H) ==
       [] ad.op = "group" -> LET e == GroupEnds(xs, 1) IN Through(s, IF s.inf THEN DropLast(e) ELSE e, s.endp)
       [] ad.op = "addR" -> IF s.inf THEN Through(s, Iota(1, n), s.endp) ELSE Through(s, Append(Iota(1, n), n + 1), s.endp)
       [] ad.op = "addL" -> Through(s, <<0>> \o Iota(1, n), s.endp)
-Step(ad, s, H) == LET t == Apply(ad, s, H)  p == ApplyProv(ad, s, H) IN [t EXCEPT !.prov = p.prov, !.endp = p.endp]
+\* repeating a finite stream iterates its source again (a generator is re-evaluated by every consumption):
+\* the number of evaluations is then not "the needed prefix", and the model makes no claim about it
+Step(ad, s, H) == LET t == Apply(ad, s, H)  p == ApplyProv(ad, s, H)
+                  IN [t EXCEPT !.prov = p.prov, !.endp = p.endp,
+                               !.reiter = s.reiter \/ (ad.op \in {"repeat", "repeat_n"} /\ ~s.inf /\ s.pre # <<>>)]
 
 \* ---- sinks ---------------------------------------------------------------------------------
 IntSinks == {"sum", "first_even", "any_lt3", "all_pos", "count_even", "reduce", "nth1_even", "contains2"}
@@ -255,8 +259,8 @@ Emit ==
         t == TextOf(SrcText(src), ads, 1) \o SinkText(sink)
         s1 == Run(Src(src, H1), ads, 1, H1)
         s2 == Run(Src(src, H2), ads, 1, H2)
-        need == IF v1.v = "diverge" THEN -1 ELSE Need(sink, s1)
-    IN (v1 = v2 /\ (v1.v # "diverge" => Need(sink, s2) = need)) =>
+        need == IF v1.v = "diverge" \/ s1.reiter THEN -1 ELSE Need(sink, s1)
+    IN (v1 = v2 /\ (need # -1 => Need(sink, s2) = need)) =>
           PrintT(<<"CASE", ToJson([src |-> t, verdict |-> v1, n |-> Len(ads), sink |-> sink, source |-> src,
                                    need |-> need, slack |-> Slack(ads, 1) + 1])>>)
 
